@@ -1078,6 +1078,7 @@ func runC11(c *Check) {
 	}
 	c.Doc("C11-R6", "= C10-R8: the sequencer's queue never returns an error after it removed the head from memory (the batch would be neither delivered nor kept).")
 	rulePoppedBatchHandedOut(c, sp, "C11-R6")
+	ruleBasedHandOffCompletes(c, "C11-R7")
 	c.MinInstances("C11-R6", 1)
 	c.MinInstances("C11-R1", 2)
 	c.MinInstances("C11-R5", 1)
@@ -1257,4 +1258,48 @@ func alignedResults(p *Prog, fn *ssa.Function, si, hi int) bool {
 		}
 	}
 	return true
+}
+
+// ruleBasedHandOffCompletes (C11-R7): in based mode the hand-off to the sequencing layer is the
+// publication of the batch on the DA layer, with retries. The reaper marks the transactions seen —
+// for good — as soon as the hand-off returns without an error. So the hand-off returns nil only
+// when every transaction of the batch was accepted: behind the comparison of the accepted count
+// with the number of transactions still to submit (directly or through the flag it sets). A nil
+// return on cancellation or after a partial submission forgets the rest of the batch.
+func ruleBasedHandOffCompletes(c *Check, rule string) {
+	c.Doc(rule, "GA: the based sequencer's DA hand-off (the function with the submission retry loop) returns nil only behind the test that the DA layer accepted as many transactions as were left to submit — never on cancellation or after a partial submission (the reaper marks the whole batch seen on a nil return).")
+	bp := c.Mod(ModBased)
+	n := 0
+	for _, fn := range bp.Funcs {
+		pk := fnPkg(fn)
+		if pk == nil || pk.Pkg.Path() != basedPkg || fn.Blocks == nil || fn.Parent() != nil || corrResult(fn) < 0 {
+			continue
+		}
+		if !callsNamed(fn, func(nm string) bool { return nm == typesF("SubmitWithHelpers") }) {
+			continue
+		}
+		n++
+		g := BuildECFG(bp, fn, ExpandOpts{MaxDepth: 0})
+		c.NoteGraph(g)
+		allAccepted := g.GuardEdges(func(t *Term, pol bool) bool {
+			a, op, b, ok := canonCmp(t, pol)
+			if !ok || op != "==" {
+				return false
+			}
+			isLeft := func(x *Term) bool { s := x.unconv().String(); return strings.HasPrefix(s, "len(") && strings.Contains(s, "Transactions") }
+			isCount := func(x *Term) bool { return strings.Contains(x.String(), "SubmittedCount") || strings.Contains(x.String(), "SubmitWithHelpers(") }
+			return (isLeft(a) && isCount(b)) || (isLeft(b) && isCount(a))
+		})
+		inst := fnShort(fn) + " ⟂ nil only after the whole batch was accepted"
+		if len(allAccepted) == 0 {
+			c.Bad(rule, inst, fnName(fn), bp.Pos(fn.Pos()), "the hand-off never compares the accepted count with the number of transactions left: it cannot know that the whole batch was published", nil)
+			continue
+		}
+		c.Decide(rule, inst, fnName(fn), bp.InstrPos(allAccepted[0].In), "every nil return lies behind accepted count == transactions left",
+			"the hand-off can return nil although not every transaction of the batch was accepted by the DA layer (cancellation, a partial submission): the reaper then marks the whole batch seen, and after the restart the rest is filtered out as seen and never reaches a block",
+			g, g.PathAvoiding([]*Node{g.Entry}, g.SuccessExits(), nodeSet(allAccepted)))
+	}
+	if n == 0 {
+		c.Unk(rule, "anchor-count", "", "", "anchor lost: no function of the based sequencer hands a batch to the DA layer")
+	}
 }
